@@ -52,6 +52,10 @@ type attacker struct {
 	maxView int
 	cmdSeq  int
 	note    []string
+	// refFirst: a replica hears of a block before it gets the proposal -- the adversary's own (genuine) vote for the block arrives
+	// first, is set aside, and is taken up again when some other proposal has been handled; the replica then fetches the block.
+	refFirst bool
+	lastProp map[hotstuff.ID]*hotstuff.Block // the last proposal shown to each replica
 }
 
 func num(x any) int { return int(x.(float64)) }
@@ -228,6 +232,13 @@ func (a *attacker) vote(id, v, k int) (voted bool, ok bool) {
 	if !a.pump(x, v, 0) {
 		return false, false
 	}
+	if prev := a.lastProp[x.ID]; a.refFirst && prev != nil && prev != b && r.rng.Intn(2) == 0 {
+		if pc, err := r.node(a.byz).Auth.CreatePartialCert(b); err == nil {
+			a.send("vote", x, hotstuff.VoteMsg{ID: a.byz, PartialCert: pc})
+			a.send("propose", x, hotstuff.ProposeMsg{ID: a.byz, Block: prev}) // an old proposal once more: refused, and the vote set aside is taken up
+		}
+	}
+	a.lastProp[x.ID] = b
 	s0 := len(x.Signed)
 	a.send("propose", x, hotstuff.ProposeMsg{ID: a.byz, Block: b})
 	for _, s := range x.Signed[s0:] {
@@ -330,7 +341,7 @@ func attackCmd(args []string) error {
 		return err
 	}
 	for si, sc := range scripts {
-		res, err := playScript(o, sc, *seed+int64(si))
+		res, err := playScript(o, sc, *seed+int64(si), si%2 == 1)
 		if err != nil {
 			return err
 		}
@@ -342,7 +353,7 @@ func attackCmd(args []string) error {
 	return o.close()
 }
 
-func playScript(o *ndjson, sc abScript, seed int64) (obj, error) {
+func playScript(o *ndjson, sc abScript, seed int64, refFirst bool) (obj, error) {
 	const n = 4
 	rs := map[string]string{"chained": "chainedhotstuff", "simple": "simplehotstuff"}[sc.Rs]
 	if rs == "" {
@@ -377,7 +388,7 @@ func playScript(o *ndjson, sc abScript, seed int64) (obj, error) {
 		r.step("start", x, obj{"type": "start"}, func() { x.Start() })
 	}
 	a := &attacker{r: r, byz: byzID, blk: map[[2]int]*hotstuff.Block{{0, 0}: hotstuff.GetGenesis()}, tmo: map[hotstuff.View]map[hotstuff.ID]hotstuff.TimeoutMsg{},
-		tcs: map[hotstuff.View]hotstuff.TimeoutCert{}}
+		tcs: map[hotstuff.View]hotstuff.TimeoutCert{}, refFirst: refFirst, lastProp: map[hotstuff.ID]*hotstuff.Block{}}
 	a.flush()
 	status, at := "completed", -1
 	// the fault-free prefix: one chain, everybody votes
@@ -429,6 +440,7 @@ func playScript(o *ndjson, sc abScript, seed int64) (obj, error) {
 					status, a.note = "panic", append(a.note, fmt.Sprint(x)+" @ "+panicSite())
 				}
 			}()
+			a.refFirst = false
 			for _, tip := range a.certifiedTips() {
 				v := a.maxView + 1
 				if !a.propose(v, 9, tip) {
@@ -453,5 +465,5 @@ func playScript(o *ndjson, sc abScript, seed int64) (obj, error) {
 	}
 	o.emit(obj{"op": "end", "steps": r.steps})
 	return obj{"job": sc.Job, "idx": sc.Idx, "kind": sc.Kind, "weak": sc.Weak, "rs": sc.Rs, "status": status, "at": at, "ops": len(sc.Ops),
-		"commits": commits, "notes": a.note}, nil
+		"commits": commits, "notes": a.note, "refFirst": refFirst}, nil
 }
